@@ -254,3 +254,192 @@ Section ExecConeProofs.
       apply memN_In. apply in_outs. eauto.
   Qed.
 End ExecConeProofs.
+
+(* ------------------------------------------------------------------------------------------ *)
+(* Amended inputs, deferral, failing steps (the gated engine, as the code)                      *)
+(* ------------------------------------------------------------------------------------------ *)
+Lemma all_avail_false proj b ps :
+  all_avail proj b ps = false -> exists p, In p ps /\ avail proj b p = None.
+Proof.
+  induction ps as [|a ps IH]; cbn; [discriminate|].
+  destruct (avail proj b a) eqn:E; cbn.
+  - intros H. destruct (IH H) as (p & Hp & Hn). exists p. auto.
+  - intros _. exists a. auto.
+Qed.
+
+Section ExecConeAmendProofs.
+  Variable run : N -> list (option N) -> list (option N) -> N -> N.
+  Variable amend : N -> list (option N) -> list N.
+  Variable fails : N -> list (option N) -> list (option N) -> bool.
+  Notation a_step := (a_step_build run amend fails true).
+  Notation a_from := (a_build_from run amend fails).
+  Notation a_log := (a_build_log run amend fails true).
+  Notation dec := (decide amend fails true).
+
+  Lemma a_from_app proj a b y : a_from proj (a ++ b) y = a_from proj b (a_from proj a y).
+  Proof. unfold a_build_from. apply fold_left_app. Qed.
+  Lemma a_from_cons proj s r y : a_from proj (s :: r) y = a_from proj r (a_step proj s y).
+  Proof. reflexivity. Qed.
+
+  Definition executes_at (proj : project) (s : step) (y : asys) : Prop :=
+    match dec proj s y with DRun | DDefer | DFail => True | _ => False end.
+
+  Lemma a_log_head proj s r y :
+    a_log proj (s :: r) y =
+    match dec proj s y with DNone => [] | DSkip => [(sid s, false)] | _ => [(sid s, true)] end
+      ++ a_log proj r (a_step proj s y).
+  Proof. cbn [Engine.a_build_log]. destruct (dec proj s y); reflexivity. Qed.
+
+  Lemma a_log_app proj a : forall b y, a_log proj (a ++ b) y = a_log proj a y ++ a_log proj b (a_from proj a y).
+  Proof.
+    induction a as [|s a IH]; intros b y; [reflexivity|].
+    rewrite <- app_comm_cons. rewrite !a_log_head, a_from_cons, IH, app_assoc. reflexivity.
+  Qed.
+
+  Lemma in_a_log_true proj id : forall todo y,
+    In (id, true) (a_log proj todo y) ->
+    exists d s r, todo = d ++ s :: r /\ sid s = id /\ executes_at proj s (a_from proj d y).
+  Proof.
+    induction todo as [|s r IH]; intros y H; [contradiction|].
+    rewrite a_log_head in H. apply in_app_or in H. destruct H as [H|H].
+    - exists [], s, r. unfold executes_at. cbn [a_build_from fold_left app].
+      destruct (dec proj s y); cbn in H; try contradiction;
+        destruct H as [H|[]]; inversion H; subst; repeat split; auto.
+    - destruct (IH _ H) as (d & s' & r' & Ht & Hid & Hr).
+      exists (s :: d), s', r'. split; [rewrite Ht; reflexivity|]. split; [exact Hid|].
+      rewrite a_from_cons. exact Hr.
+  Qed.
+
+  Lemma executes_in_a_log proj d s r y :
+    executes_at proj s (a_from proj d y) -> In (sid s, true) (a_log proj (d ++ s :: r) y).
+  Proof.
+    unfold executes_at. intros H. rewrite a_log_app. apply in_or_app. right. rewrite a_log_head.
+    destruct (dec proj s (a_from proj d y)); try contradiction; left; reflexivity.
+  Qed.
+
+  (* one dispatch decision: a file changes only as an output of a step whose command ran; traces,
+     states and remembered amended inputs of the other steps and the environment stay *)
+  Lemma a_step_frame proj s y :
+    (forall p, fs (abase (a_step proj s y)) p <> fs (abase y) p -> In p (out s) /\ executes_at proj s y) /\
+    (forall n, ev (abase (a_step proj s y)) n = ev (abase y) n) /\
+    (forall id, id <> sid s ->
+                tr (abase (a_step proj s y)) id = tr (abase y) id /\
+                stt (abase (a_step proj s y)) id = stt (abase y) id /\
+                adyn (a_step proj s y) id = adyn y id).
+  Proof.
+    unfold executes_at, Engine.a_step_build. destruct (dec proj s y) eqn:D; cbn.
+    - split; [congruence|]. split; auto.
+    - split; [congruence|]. split; [auto|]. intros id Hid. rewrite upd_other by exact Hid. auto.
+    - split; [|split; [auto|]].
+      + intros p Hp. split; [|exact I]. destruct (in_dec N.eq_dec p (out s)) as [Hi|Hn]; [exact Hi|].
+        exfalso. apply Hp. apply (fs_do_run_other run (eff amend (abase y) s) (abase y) p). exact Hn.
+      + intros id Hid. rewrite !upd_other by exact Hid. auto.
+    - split; [congruence|]. split; [auto|]. intros id Hid. rewrite !upd_other by exact Hid. auto.
+    - split; [congruence|]. split; [auto|]. intros id Hid. rewrite !upd_other by exact Hid. auto.
+  Qed.
+
+  Lemma a_from_fs_other proj p : forall todo y,
+    (forall q, In q todo -> ~ In p (out q)) -> fs (abase (a_from proj todo y)) p = fs (abase y) p.
+  Proof.
+    induction todo as [|s r IH]; intros y H; [reflexivity|].
+    rewrite a_from_cons, IH; [|intros q Hq; apply H; right; exact Hq].
+    destruct (oN_dec (fs (abase (a_step proj s y)) p) (fs (abase y) p)) as [He|Hne]; [exact He|].
+    apply (proj1 (a_step_frame proj s y)) in Hne. exfalso. apply (H s); [left; reflexivity|apply Hne].
+  Qed.
+
+  Lemma a_prefix_inv proj y1 : forall d,
+    (forall id, (forall q, In q d -> sid q <> id) ->
+                tr (abase (a_from proj d y1)) id = tr (abase y1) id /\
+                stt (abase (a_from proj d y1)) id = stt (abase y1) id /\
+                adyn (a_from proj d y1) id = adyn y1 id) /\
+    (forall n, ev (abase (a_from proj d y1)) n = ev (abase y1) n) /\
+    (forall p, fs (abase (a_from proj d y1)) p <> fs (abase y1) p ->
+               exists q, In q d /\ In p (out q) /\ In (sid q, true) (a_log proj d y1)).
+  Proof.
+    induction d as [|s d IH] using rev_ind.
+    - cbn. split; [auto|]. split; [auto|]. intros p H. congruence.
+    - destruct IH as (I1 & I2 & I3). rewrite a_from_app.
+      change (a_from proj [s] (a_from proj d y1)) with (a_step proj s (a_from proj d y1)).
+      set (y' := a_from proj d y1) in *.
+      destruct (a_step_frame proj s y') as (F1 & F2 & F3).
+      split; [|split].
+      + intros id Hid. assert (Hne : id <> sid s).
+        { intros ->. apply (Hid s); [apply in_or_app; right; left; reflexivity|reflexivity]. }
+        destruct (F3 id Hne) as (E1 & E2 & E3). rewrite E1, E2, E3. apply I1.
+        intros q Hq. apply Hid. apply in_or_app. left. exact Hq.
+      + intros n. rewrite F2. apply I2.
+      + intros p Hp. destruct (oN_dec (fs (abase (a_step proj s y')) p) (fs (abase y') p)) as [He|Hne].
+        * rewrite He in Hp. destruct (I3 p Hp) as (q & Hq & Hpo & Hlog). exists q.
+          split; [apply in_or_app; left; exact Hq|]. split; [exact Hpo|].
+          rewrite a_log_app. apply in_or_app. left. exact Hlog.
+        * apply F1 in Hne. destruct Hne as [Hpo Hr]. exists s.
+          split; [apply in_or_app; right; left; reflexivity|]. split; [exact Hpo|].
+          apply executes_in_a_log. exact Hr.
+  Qed.
+
+  (* a step whose command is executed did not pass the check *)
+  Lemma executes_at_inv proj s y :
+    executes_at proj s y ->
+    all_avail proj (abase y) (adyn y (sid s)) && can_skip (remb y s) (abase y) = false.
+  Proof.
+    unfold executes_at, Engine.decide.
+    destruct (is_succ (stt (abase y) (sid s))); [contradiction|].
+    destruct (negb (ready proj (abase y) s) || dyn_blocked true proj y s); [contradiction|].
+    destruct (all_avail proj (abase y) (adyn y (sid s)) && can_skip (remb y s) (abase y)); [contradiction|].
+    reflexivity.
+  Qed.
+
+  Theorem exec_cone_amend : C04_exec_cone_amend run amend fails.
+  Proof.
+    intros proj y w s Hid Hnd Hs HK Hran.
+    destruct (stt_cases (abase y) (sid s)) as [Hst|Hst]; [left; exact Hst|].
+    set (y1 := resync_a proj y w) in *.
+    destruct (in_a_log_true proj (sid s) proj y1 Hran) as (d & s' & r & Hp & He & Hr).
+    assert (Hs' : In s' proj) by (rewrite Hp; apply in_or_app; right; left; reflexivity).
+    rewrite (sid_unique proj s' s Hid Hs' Hs He) in *. clear s' Hs' He.
+    destruct (a_prefix_inv proj y1 d) as (I1 & I2 & I3).
+    set (y' := a_from proj d y1) in *.
+    assert (Hfresh : forall q, In q d -> sid q <> sid s).
+    { intros q Hq. apply (sid_before d r s q); [rewrite <- Hp; exact Hid|exact Hq]. }
+    destruct (I1 (sid s) Hfresh) as (Htr' & _ & Hdyn').
+    assert (Hdyn : adyn y' (sid s) = adyn y (sid s)) by (rewrite Hdyn'; reflexivity).
+    assert (Htr : tr (abase y') (sid s) = tr (abase y) (sid s)) by (rewrite Htr'; reflexivity).
+    assert (Hout : forall p, In p (outs proj) -> fs (abase y1) p = fs (abase y) p).
+    { intros p Hpo. cbn. assert (E : is_output proj p = true) by (apply memN_In; exact Hpo). rewrite E. reflexivity. }
+    assert (Hlater : forall p q, In q d -> In p (out q) ->
+                                 fs (abase (build_world_a run amend fails true proj w y)) p = fs (abase y') p).
+    { intros p q Hq Hpo. unfold build_world_a, Engine.a_build. fold y1.
+      change (fold_left (fun y0 s0 => a_step proj s0 y0) proj y1) with (a_from proj proj y1).
+      rewrite Hp at 2. rewrite a_from_app. apply a_from_fs_other. intros q' Hq' Hpo'.
+      rewrite Hp, outs_app in Hnd. apply (NoDup_app_disjoint _ _ p Hnd); apply in_outs; eauto. }
+    assert (Hlog : forall id, In (id, true) (a_log proj d y1) -> a_ran run amend fails proj y1 id).
+    { intros id H. unfold a_ran. rewrite Hp at 2. rewrite a_log_app. apply in_or_app. left. exact H. }
+    pose proof (executes_at_inv proj s y' Hr) as R.
+    apply andb_false_iff in R. destruct R as [R|R].
+    - (* a remembered amended input is not available *)
+      apply all_avail_false in R. destruct R as (p & Hpi & Hn). rewrite Hdyn in Hpi.
+      right. right. right. right. exists p, d, r. auto.
+    - destruct (HK s Hs Hst) as (t & Ht & Hi & Hev & Ho). cbn [remb sid inp envn out] in Ht, Hi, Hev, Ho.
+      unfold can_skip in R. cbn [remb sid inp envn out] in R. rewrite Htr, Ht, Hi, Hev, Ho, Hdyn in R.
+      apply andb_false_iff in R. destruct R as [R|R]; [apply andb_false_iff in R; destruct R as [R|R]|].
+      + apply ingr_neq in R. destruct R as (k & Hk & Hne).
+        destruct (oN_dec (fs (abase y1) k) (fs (abase y) k)) as [Heq|Hne1].
+        * right. right. right. left.
+          assert (Hne2 : fs (abase y') k <> fs (abase y1) k) by congruence.
+          destruct (I3 k Hne2) as (q & Hq & Hko & Hql).
+          exists k, q. split; [exact Hk|]. split; [rewrite Hp; apply in_or_app; left; exact Hq|].
+          split; [exact Hko|]. split; [apply Hfresh; exact Hq|]. split; [apply Hlog; exact Hql|].
+          rewrite (Hlater k q Hq Hko). congruence.
+        * right. left. exists k. split; [exact Hk|]. split; [|exact Hne1].
+          destruct (is_output proj k) eqn:E; [|reflexivity].
+          exfalso. apply Hne1. apply Hout. apply memN_In. exact E.
+      + apply ingr_neq in R. destruct R as (n & Hn & Hne). right. right. left.
+        exists n. split; [exact Hn|]. rewrite <- (I2 n). congruence.
+      + apply ingr_neq in R. destruct R as (k & Hk & Hne). exfalso.
+        assert (Hko : In k (outs proj)) by (apply in_outs; eauto).
+        assert (Hne2 : fs (abase y') k <> fs (abase y1) k) by (rewrite (Hout k Hko); congruence).
+        destruct (I3 k Hne2) as (q & Hq & Hkq & _).
+        rewrite Hp, outs_app in Hnd.
+        apply (NoDup_app_disjoint _ _ k Hnd); apply in_outs; [exists q; auto|exists s; split; [left; reflexivity|exact Hk]].
+  Qed.
+End ExecConeAmendProofs.
